@@ -66,8 +66,13 @@ func (f c12Fault) String() string {
 }
 
 // c12Execute runs script + recovery suffix on the real processor.
+// c12RequestInside makes c12Execute issue a second test-recording request while the test
+// sink's StartRecording is running (set around single cases; the harness is single-threaded).
+var c12RequestInside bool
+
 func c12Execute(cfg fsmConfig, script []fsmEvent, fault func(sink int, op byte, n int) bool) (r *fsmRun, nScript int) {
 	r = newFsmRun(cfg)
+	r.requestInsideTestStart = c12RequestInside
 	r.fault = fault
 	for _, e := range script {
 		r.step(e)
@@ -333,8 +338,15 @@ func TestVerif_C12(t *testing.T) {
 			return func(sink int, op byte, n int) bool { return fr.Intn(100) < rate }
 		}
 		class := fmt.Sprintf("random faults %d%% per call", rate)
+		inside := idx%3 == 0
+		if inside {
+			class += "; a second request lands inside the test recorder's start"
+		}
 		c.Case(idx, c12Desc(cfg, script, class, mkFault()), func() {
+			c12RequestInside = inside
 			r, ns := c12Execute(cfg, script, mkFault())
+			c12RequestInside = false
+			c.Count("requests_inside_test_start", int64(r.requestsInsideTestStart))
 			c12Judge(c, r, ns, class)
 			c.Count("runs", 1)
 			c.Count("random_multi_fault_runs", 1)
